@@ -47,6 +47,24 @@ CHECKS = {
             "simulator and the Pasqal request body/result decoding are checked against plain-Python bit bookkeeping.",
             "Vendor gate semantics as quoted in vf/refmodel/ionq_reader.py / aqt_reader.py (pauliexp string order inferred from the "
             "serializer's comment and literal test expectations); fake endpoints model the services.", "DESIGN.md 5/C17"),
+    "C08": ("exploration", "runtime monitor on pow/inverse/controlled/phase_by and the predicates + catalogue eigen-definitions as oracle",
+            "g**t is compared with the eigen-decomposition definition (catalogue projectors at exponent e*t) for every EigenGate "
+            "family incl. qudits, with closed forms / integer matrix powers / root checks for the others; g.controlled(...) and "
+            "controlled_by for value, product-of-sums, sum-of-products, qudit and nested controls are compared with the block "
+            "matrix (shortcut types may change, matrices may not); phase_by with Z-conjugation up to phase; commutes / "
+            "definitely_commutes / == + hash / approx_eq / equal_up_to_global_phase / has_stabilizer_effect / "
+            "trace_distance_bound / pauli_expansion / linalg predicates are checked in the sound direction against matrices.",
+            "Predicates are only checked True => matrix fact (converse only counted); approx_eq bound 100*atol; <=3 qubits for "
+            "pairs.", "DESIGN.md 5/C08"),
+    "C18": ("exploration", "icontract invariant + wrappers on ResultDict/digit functions/Sampler entry points; pure-Python records model as oracle",
+            "Generated asymmetric results (0-9 repetitions, repeated keys, qudit digits, up to 70 digits) are observed through every "
+            "view (records, measurements, data, histograms, str/repr, ==, +, JSON bit/digit packing) and compared with a plain "
+            "Python model of [rep][instance][digit] and big integers; an icontract invariant re-checks the cached private views "
+            "around every public access; big_endian_* functions are checked as mutual inverses for mixed radix; Sampler.run / "
+            "sample / run_sweep / run_batch and their async variants are driven on fake samplers whose results encode (circuit, "
+            "resolver, repetition) under seeded completion orders, plus ZerosSampler and Simulator on deterministic circuits.",
+            "Flattened views only for keys measured once per repetition; data frame specified for bits only; cirq_google "
+            "EngineResult / ProcessorSampler not covered.", "DESIGN.md 5/C18"),
 }
 
 PENDING_REASON = "check not built yet in this round; design in DESIGN.md section 5 (runtime monitor + reference oracle)"
